@@ -330,7 +330,7 @@ impl HistSc {
 // ---------------------------------------------------------------------------------------------
 
 const NUMS: [&str; 20] = ["0", "-0", "1", "1.0", "1e2", "10", "2", "-1.5E-3", "9", "100", "1E+2", "1.00", "0e0", "0.0", "9223372036854775807", "9223372036854775808", "-9223372036854775808", "18446744073709551616", "1e400", "-1e-400"];
-const STRS: [&str; 9] = ["", "a", "b", "a string that is longer than sixteen bytes", "é", "\u{ffff}", "\u{10ffff}", "\u{e000}", "\u{10e000}"];
+const STRS: [&str; 12] = ["", "a", "b", "a string that is longer than sixteen bytes", "é", "\u{ffff}", "\u{10ffff}", "\u{e000}", "\u{10e000}", "0123456789abcde", "0123456789abcdef", "0123456789abcdefg"];
 
 pub fn gen_v(rng: &mut Rng, depth: usize) -> V {
     match rng.below(if depth == 0 { 12 } else { 9 }) {
@@ -348,7 +348,31 @@ pub fn gen_universe(rng: &mut Rng, force_huge: Option<usize>) -> Vec<String> {
     // one run in forty: a huge universe (the raw table grows to 128..512 buckets)
     let huge = rng.chance(1, 40) || force_huge.is_some();
     let n = if let Some(n) = force_huge { n } else if huge { rng.urange(100, 400) } else if small { rng.urange(1, 3) } else { rng.urange(24, 48) };
-    let style = if huge { rng.below(2) } else { rng.below(5) };
+    let style = if huge { rng.below(2) } else { rng.below(6) };
+    if style == 5 {
+        // keys of many lengths around the inline capacity (16 bytes) over three letters, some
+        // sharing a prefix, half of them one-bit siblings of the others
+        const LENS: [usize; 14] = [0, 1, 1, 2, 3, 7, 8, 15, 16, 17, 18, 24, 33, 40];
+        let n = if small { rng.urange(2, 4) } else { rng.urange(8, 32) };
+        let shared: String = (0..rng.usize_below(20)).map(|_| *rng.pick(&['a', 'm', 'z'])).collect();
+        let mut keys: Vec<String> = vec![];
+        while keys.len() < n {
+            if keys.len() % 2 == 1 && rng.chance(2, 3) {
+                let mut cs: Vec<char> = keys[keys.len() - 1].chars().collect();
+                if !cs.is_empty() {
+                    let at = match rng.below(3) { 0 => 0, 1 => cs.len() - 1, _ => rng.usize_below(cs.len()) };
+                    cs[at] = char::from_u32(cs[at] as u32 ^ (1 << rng.below(7))).unwrap_or('a');
+                    keys.push(cs.into_iter().collect());
+                    continue;
+                }
+            }
+            let mut k = if rng.chance(1, 3) { shared.clone() } else { String::new() };
+            let want = *rng.pick(&LENS);
+            while k.len() < want { k.push(*rng.pick(&['a', 'm', 'z'])); }
+            keys.push(k);
+        }
+        return keys;
+    }
     if style == 4 {
         // keys over boundary code points of the UTF-8 / UTF-16 encodings and over families of
         // characters that share their low 16 bits across planes (truncating or plane-shifting
